@@ -64,3 +64,107 @@ package saml
 //@ invariant[C04] seen_request: forall(0, iter, func(k int) bool { return confRequest(sp, assertion.Subject.SubjectConfirmations[k], possibleRequestIDs) })
 //@ loop 2 vars subjectConfirmation SubjectConfirmation
 //@ invariant[C04] nomatch: forall(0, iter, func(j int) bool { return possibleRequestIDs[j] != subjectConfirmation.SubjectConfirmationData.InResponseTo })
+
+//@ -- unmarshalElement serialises el and parses it with encoding/xml: its functional meaning lives in the
+//@ -- dependencies; the contract records which element a value was read from (a call-history fact)
+//@ contract (*ServiceProvider).parseAssertion
+//@ requires[cfg] el: assertionEl != nil
+//@ requires[cfg] md: sp.IDPMetadata != nil
+//@ ensures[C09] nil_iff_err: (result == nil) == (err != nil)
+//@ ensures[C02,C03,C04] valid: result != nil ==> assertionValid(sp, result, possibleRequestIDs, now)
+//@ ensures[C03] audience: result != nil && sp.ValidateAudienceRestriction == nil ==> audienceOK(sp, result)
+
+//@ -- ------------------------------------------------------------------------------------------
+//@ -- C01: ghost vocabulary. Ghost predicates are uninterpreted; they become true only through assumed
+//@ -- contracts of dependencies (DsigValid, DetachedFrom, RoundTripSafe ...), call-history facts
+//@ -- (records), and the derivation rules below, which DEFINE the derived predicates.
+//@ import dsig "github.com/russellhaering/goxmldsig"
+//@ import x509 "crypto/x509"
+
+//@ ghost func ReturnedSigningCerts(sp *ServiceProvider, result []*x509.Certificate, err error) bool
+//@ ghost func ReturnedFingerprintCerts(sp *ServiceProvider, el *etree.Element, result []*x509.Certificate, err error) bool
+//@ ghost func ReturnedParseCert(x509Data string, result *x509.Certificate, err error) bool
+//@ ghost func TrustedCerts(sp *ServiceProvider, el *etree.Element, certs []*x509.Certificate) bool
+//@ ghost func CtxTrusted(sp *ServiceProvider, el *etree.Element, ctx *dsig.ValidationContext) bool
+//@ ghost func SigOK(sp *ServiceProvider, el *etree.Element) bool
+//@ ghost func AssertionReadFrom(el *etree.Element, a Assertion) bool
+//@ ghost func ResponseReadFrom(el *etree.Element, r Response) bool
+//@ ghost func ArtifactResponseReadFrom(el *etree.Element, r ArtifactResponse) bool
+//@ ghost func LogoutResponseReadFrom(el *etree.Element, r LogoutResponse) bool
+//@ ghost func Accepted(sp *ServiceProvider, a Assertion, req signatureRequirement) bool
+//@ go func storeRoots(s dsig.X509CertificateStore) []*x509.Certificate {
+//@    m, ok := s.(*dsig.MemoryX509CertificateStore)
+//@    if ok && m != nil { return m.Roots }
+//@    return nil }
+//@ go func valueReadFrom(v interface{}, el *etree.Element) bool {
+//@    switch x := v.(type) {
+//@    case *Assertion: return x != nil && AssertionReadFrom(el, *x)
+//@    case *Response: return x != nil && ResponseReadFrom(el, *x)
+//@    case *ArtifactResponse: return x != nil && ArtifactResponseReadFrom(el, *x)
+//@    case *LogoutResponse: return x != nil && LogoutResponseReadFrom(el, *x)
+//@    }
+//@    return true }
+
+//@ -- SigOK(sp, el): a detached copy of el passed goxmldsig validation in a context whose roots were
+//@ -- established (TrustedCerts) to come from the SP's configuration
+//@ axiom sigok (sp *ServiceProvider, el *etree.Element, d *etree.Element, ctx *dsig.ValidationContext):
+//@    DsigValid(ctx, d) && DetachedFrom(d, el) && CtxTrusted(sp, el, ctx) ==> SigOK(sp, el)
+//@ -- Accepted(sp, a, req): a was read from an element that, when a signature is required, is itself SigOK
+//@ axiom accepted_signed (sp *ServiceProvider, el *etree.Element, a Assertion):
+//@    AssertionReadFrom(el, a) && SigOK(sp, el) ==> Accepted(sp, a, signatureRequired)
+//@ axiom accepted_enclosed (sp *ServiceProvider, el *etree.Element, a Assertion):
+//@    AssertionReadFrom(el, a) ==> Accepted(sp, a, signatureNotRequired)
+
+//@ contract findChildren
+//@ requires[cfg] el: parentEl != nil
+//@ ensures[C01] match: err == nil ==> forall(0, len(result), func(k int) bool {
+//@    return result[k] != nil && result[k].Tag == childTag && NSOf(result[k]) == childNS })
+//@ loop 1 vars rv []*etree.Element
+//@ invariant[C01] acc: forall(0, len(rv), func(k int) bool { return rv[k] != nil && rv[k].Tag == childTag && NSOf(rv[k]) == childNS })
+
+//@ contract findOneChild
+//@ requires[cfg] el: parentEl != nil
+//@ ensures[C01,C09] one: err == nil ==> result != nil && result.Tag == childTag && NSOf(result) == childNS
+
+//@ contract findChild
+//@ requires[cfg] el: parentEl != nil
+//@ ensures[C01] one: err == nil && result != nil ==> result.Tag == childTag && NSOf(result) == childNS
+
+//@ contract parseCert
+//@ ensures[C09] nonnil: err == nil ==> result != nil
+//@ records ret: ReturnedParseCert(x509Data, result, err)
+
+//@ contract (*ServiceProvider).getIDPSigningCerts
+//@ requires[cfg] md: sp.IDPMetadata != nil
+//@ -- only certificates of key descriptors with use "signing" or without use become trust roots
+//@ assert@call[C01] append #1 (dst []string, src []string) uses keyDescriptor KeyDescriptor signing_use_only:
+//@    keyDescriptor.Use == "" || keyDescriptor.Use == "signing"
+//@ ensures[C01,C09] nonempty: err == nil ==> len(result) > 0
+//@ records ret: ReturnedSigningCerts(sp, result, err)
+
+//@ contract (*ServiceProvider).getCertBasedOnFingerprint
+//@ requires[cfg] el: el != nil
+//@ requires[cfg] fp: sp.IDPCertificateFingerprint != nil && sp.IDPCertificateFingerprintAlgorithm != nil
+//@ ensures[C01] single: err == nil ==> len(result) == 1
+//@ records ret: ReturnedFingerprintCerts(sp, el, result, err)
+
+//@ contract (*ServiceProvider).validateSignature
+//@ requires[cfg] el: el != nil
+//@ requires[cfg] sentinel: errSignatureElementNotPresent != nil
+//@ -- the roots handed to the validation context come from exactly one configured source
+//@ derive@call[C01] NewDefaultValidationContext #1 (store dsig.X509CertificateStore) uses certs []*x509.Certificate config_roots:
+//@    sameCerts(storeRoots(store), certs) && len(certs) > 0 && sp.IDPMetadata != nil &&
+//@    ((sp.IDPCertificateFingerprint == nil && sp.IDPCertificateFingerprintAlgorithm == nil && sp.IDPCertificate == nil && ReturnedSigningCerts(sp, certs, nil)) ||
+//@     (sp.IDPCertificateFingerprint != nil && sp.IDPCertificateFingerprintAlgorithm != nil && sp.IDPCertificate == nil && ReturnedFingerprintCerts(sp, el, certs, nil)) ||
+//@     (sp.IDPCertificateFingerprint == nil && sp.IDPCertificateFingerprintAlgorithm == nil && sp.IDPCertificate != nil && len(certs) == 1 && ReturnedParseCert(*sp.IDPCertificate, certs[0], nil)))
+//@    |- TrustedCerts(sp, el, certs)
+//@ -- what is validated is the detached copy of the element passed in, in the context built from those roots
+//@ derive@call[C01] Validate #1 (ctx *dsig.ValidationContext, d *etree.Element) uses certs []*x509.Certificate validates_this_element:
+//@    DetachedFrom(d, el) && sameCerts(storeRoots(CtxStore(ctx)), certs) && TrustedCerts(sp, el, certs)
+//@    |- CtxTrusted(sp, el, ctx)
+//@ ensures[C01] sigok: err == nil && sp.SignatureVerifier == nil ==> SigOK(sp, el)
+
+//@ contract unmarshalElement
+//@ trusted
+//@ requires[cfg] el: el != nil
+//@ ensures[C01] source: err == nil ==> valueReadFrom(v, el)
